@@ -74,6 +74,7 @@ def verify(src, sid, dest=None, cmd=None):
             if rc != 0:
                 print('REJECT: patch does not apply to HEAD\n', o[-1500:])
                 return 1
+        sh(['git', 'add', '-A', '-N'], cwd=wt)   # new files belong to the patch too
         rc, o = sh(['git', 'diff'], cwd=wt)
         patch = o
         rcb, ob = sh('go build ./... && go test -vet=off -count=1 ./...', cwd=wt)
